@@ -747,7 +747,7 @@ func TestC03(t *testing.T) {
 			rt.Fatalf("%s: %s", v.sig, v.msg)
 		}
 	})
-	run.Rapid(t, "streams", ev.Pick(500, 40000), func(rt *rapid.T) {
+	run.Rapid(t, "streams", ev.Pick(300, 40000), func(rt *rapid.T) {
 		// a valid stream with a few generated mutations (flipped bytes, inserted garbage, cut) read under a plan
 		_, _, stream := buildAll(&Case{Pkts: genPkts(rt, 6, []int{100, 4090})})
 		data := append([]byte{}, stream...)
